@@ -35,6 +35,7 @@ FIXED = [
  ("C13", "0b385e3", "SignedData whose signed attributes lack the contentType attribute: Verify panicked in Attributes.Marshal (cryptobyte BytesOrPanic: invalid OID)"),
  ("C04", "0b385e3", "valid blob with the contentType attribute removed: Verify panicked instead of returning a negative result or error"),
  ("C13", "5d3600e", "4 KiB image declaring SizeOfHeaders 0xffffffff (or a huge section size): PECOFFBinary.Bytes() preallocated its buffer by the header-declared section sizes, 4 GiB allocated"),
+ ("C15", "631263e", "image reader whose 2nd ReadAt (debug/pe's read of the PE signature) returns a short count with io.ErrUnexpectedEOF: the error was ignored and authenticode.Parse reported success"),
  ("C18", "f437fe9", "BootOrder with 64 entries read through the legacy efi.GetBootOrder: the loop bound data.Len() shrank while reading, only the first 32 names were returned"),
  ("C05", "44b99d3", "SignPKCS7 with a content type OID whose encoding is longer than ~13 bytes: signed attributes not in DER SET OF order (contentType after signingTime needed), go.mozilla.org/pkcs7 rejected the signature"),
 ]
